@@ -243,6 +243,8 @@ var typeSpecials = map[string]int{} // number of special values per type
 
 func regType[E any](et *etype[E]) {
 	typeRunners[et.name] = func(c TCase) pbt.Outcome { return runTyped(et, c) }
+	regHist(et)
+	regAlias(et)
 	typeNames = append(typeNames, et.name)
 	typeSpecials[et.name] = len(et.specials)
 	sort.Strings(typeNames)
@@ -339,6 +341,11 @@ func init() {
 			return fmt.Sprintf("{%d pad:%d,%d,%d %q}", b.ID, b.Pad[0], b.Pad[31], b.Pad[62], b.S)
 		},
 		specials: []bigElem{{}, {Pad: [63]int64{62: 1}}, {ID: 5, S: "x"}}})
+	regType(&etype[[16]uint64]{name: "[16]uint64(128B)",
+		at:       func(i int) [16]uint64 { return [16]uint64{0: uint64(i), 7: uint64(i) * 3, 15: ^uint64(i)} },
+		same:     func(a, b [16]uint64) bool { return a == b },
+		show:     func(a [16]uint64) string { return fmt.Sprintf("[%d ..%d.. %d]", a[0], a[7], a[15]) },
+		specials: [][16]uint64{{}, {15: 1}, {0: 1, 8: 2}}})
 	regType(&etype[odd]{name: "struct-with-methods",
 		at:   func(i int) odd { return odd{ID: i, Tag: "t" + strconv.Itoa(mod(i, 3))} },
 		same: func(a, b odd) bool { return a == b }, show: func(o odd) string { return fmt.Sprintf("{%d %s}", o.ID, o.Tag) },
@@ -697,9 +704,9 @@ func enumerateTypes(shard, shards int, tier string, yield0 func(TCase) bool) {
 
 var specTypes = pbt.Register(&pbt.Spec[TCase]{
 	Property: "C12", Name: "C12.types",
-	Rule: "the ten helpers on a named slice type over 17 ELEMENT TYPES: int, uint8 (1 byte), float64, struct{float32;complex128}, string, " +
+	Rule: "the ten helpers on a named slice type over 18 ELEMENT TYPES: int, uint8 (1 byte), float64, struct{float32;complex128}, string, " +
 		"[]int, map[string]int, func()int, struct{int;[]int}, [2][]int, any (holding nil, ints, strings, -0.0, slices, maps, pointers, " +
-		"non-comparable structs, typed nil), *int, struct{} and [0]int (zero size), a 520-byte struct, a comparable struct with Equal/IsZero/" +
+		"non-comparable structs, typed nil), *int, struct{} and [0]int (zero size), a 520-byte struct, a 128-byte array [16]uint64, a comparable struct with Equal/IsZero/" +
 		"String/Len/Error/Compare methods. Elements are at(i) of the type (distinct for neighbouring i; floats include -0.0, +0.0 and NaN, " +
 		"reference types include nil and empty-but-not-nil); the value for Insert/Fill/Repeat (and one element of an InsertSlice batch) is one of the " +
 		"type's special values: the zero value, values that are == to zero or empty without being the zero value (-0.0, complex(0,-0.0), empty " +
